@@ -587,6 +587,19 @@ class Run:
         except Exception:
             pass
 
+    def abandon(self):
+        """give up a run whose process is still live (a crash): the stepping task is cancelled and allowed to finish, so that
+        nothing pending is left to the garbage collector, then the loop is closed"""
+        try:
+            self.task.cancel()
+            for _ in range(100):
+                if not self.loop.n_ready():
+                    break
+                self.loop.step_one()
+        except BaseException:  # noqa
+            pass
+        self.close()
+
 
 def schedules(npos, ops, K):
     """all placements of up to K ops over positions 0..npos-1 (positions non-decreasing, order inside a position free)"""
